@@ -66,5 +66,6 @@ Definition run_path (path : list elem) (dmin dmax : option Q) (dsp : Q) (l : lis
   with_si l (fun s0 =>
     match filter_si path dmin dmax dsp s0 with
     | Err e => append "F:" (err_s e)
-    | Ok s1 => append "F:" (append (ids_s s1) (append "|" (trace_s (propagate_trace path s1))))
+    | Ok s1 => join "|" (append "F:" (ids_s s1) ::
+                         map (fun r => match r with Ok s => hist_s s | Err m => err_s m end) (propagate_trace path s1))
     end).
